@@ -42,9 +42,10 @@ def make_case(seed: int, tier: str, prop: str, opts=None) -> Dict[str, Any]:
     elif prop == "C10" and fam in (16, 17) and not force:
         # same-time loops with attached consumers: sub-steps are ordered by lazy stepping too
         sc = gen.gen_loop(seed, tier)
-    elif prop in ("C10", "C07") and fam == 18 and not force:
+    elif ((prop in ("C10", "C07", "C01") and fam == 18) or (prop == "C01" and fam == 17)) and not force:
         # lazy stepping also bounds run-ahead in real-time mode (consumers slower than the clock);
-        # max_advance is the same promise in real-time mode
+        # max_advance is the same promise in real-time mode; so is causal input readiness (external
+        # events are demands from the moment mosaik has processed them)
         c = gen.gen_rt(seed, tier)
         sc = c["scenario"]
         if sc["config"].get("rt_factor") is None:
@@ -52,6 +53,16 @@ def make_case(seed: int, tier: str, prop: str, opts=None) -> Dict[str, Any]:
         sc["config"]["rt_strict"] = False
         if prop == "C10":
             sc["config"]["lazy"] = True
+        if prop == "C01":
+            # a simulator that receives external events should have somebody who consumes its output
+            ev = [i for i, s_ in enumerate(sc["sims"]) if s_.get("events")]
+            if ev and len(sc["sims"]) >= 2 and not any(c_["src"] in ev and c_["dst"] != c_["src"] for c_ in sc["conns"]):
+                i = ev[0]
+                j = next(k_ for k_ in range(len(sc["sims"])) if k_ != i)
+                if not any(c_["src"] == j and c_["dst"] == i for c_ in sc["conns"]):
+                    va = "m_in" if sc["sims"][j]["type"] != "event-based" else "t_in"
+                    sc["conns"].append({"src": i, "se": 0, "dst": j, "de": 0, "pairs": [["e_out", va]],
+                                        "shift": 0, "weak": False})
         return {"scenario": sc, "schedules": [c["schedule"]]}
     elif fam == 19 and not force:
         sc = gen.gen_deeptail(seed, tier) if h64(seed, "family2") % 10 < 3 else gen.gen_twopath(seed, tier)
@@ -328,6 +339,14 @@ def run_case(case, prop) -> Dict[str, Any]:
         hd = digest(r.hist)
         digs.append(hd)
         viols, info = analyse_run(sc, rm, r)
+        if sc.get("rt") and prop == "C01":
+            # real-time family: as in C17, runs in which a set_event request was already in the past when
+            # mosaik processed it are outside the property's envelope and not judged
+            from . import c17 as _c17
+            _, i17 = _c17.analyse(sc, sp, r)
+            if i17["past_event"]:
+                viols = {}
+                st["rt_runs_not_judged"] = st.get("rt_runs_not_judged", 0) + 1
         out["steps"] += info["steps"]
         out["aborted"] += info["aborted"]
         out["completed"] += info["completed"]
